@@ -24,7 +24,7 @@ RULE = ("hostile connections: one hostile item (a mutated message or garbage) se
 ASSUMPTIONS = ["a peer that stalls forever mid-message on the single-threaded multiplex server without a timeout is documented behaviour; hostile clients always close (after <=50 ms)",
                "'still accepts / keeps receiving' = within a 10 s watchdog after the last hostile socket is closed",
                "BaseException-only exceptions (SystemExit ...) raised by methods are outside the statement ('Exception subclasses')"]
-REQUIRED_REACH = ["hostile_connections", "witness_calls_ok", "post_attack_handshake_ok", "accounting_restored", "refused_by_full_pool", "error_replies_seen"]
+REQUIRED_REACH = ["abandoned_streams_swept", "hostile_connections", "witness_calls_ok", "post_attack_handshake_ok", "accounting_restored", "refused_by_full_pool", "error_replies_seen"]
 SHARD_TIMEOUT = {"quick": 240, "thorough": 3000}
 
 
@@ -90,6 +90,25 @@ def make_service(P):
                 yield 1
                 raise Unser("gen")
             return g()
+
+        # item streams a hostile client opens and then abandons (every kind of iterator a method may legally return)
+        def stream_list(self):
+            return iter([1, 2, 3])
+
+        def stream_map(self):
+            return map(str, [1, 2, 3])
+
+        def stream_gen(self):
+            return (i for i in range(5))
+
+        def stream_custom(self):
+            class It(object):
+                def __iter__(self):
+                    return self
+
+                def __next__(self):
+                    return 1
+            return It()
     return Svc()
 
 
@@ -167,6 +186,7 @@ def hostile_items(P, r, ser, base_kind):
               ["svc", "echo", [{"__class__": "a__b"}], {}], ["svc", "echo", [{"__class__": "os.system"}], {}], ["svc", "echo", [deep(150)], {}],
               ["svc", "raise_unser", [], {}], ["svc", "raise_badstr", [], {}], ["svc", "raise_badrepr", [], {}], ["svc", "raise_local", [], {}], ["svc", "raise_huge", [], {}],
               ["svc", "raise_nested", [], {}], ["svc", "raise_recursion", [], {}], ["svc", "return_unser", [], {}], ["svc", "return_generator_bad", [], {}],
+              ["svc", "stream_list", [], {}], ["svc", "stream_map", [], {}], ["svc", "stream_gen", [], {}], ["svc", "stream_custom", [], {}],
               ["svc", "echo", ["x"] * 3, {}], ["svc", "echo", [], {"token": 1, "other": 2}], ["svc", "<batch>", [["echo", ["t"], {}], ["nosuch", [], {}]], {}],
               ["svc", "__getattr__", ["nosuch"], {}], ["svc", "__setattr__", ["echo"], {}], ["svc", "__getattr__", [], {}]]
     import json
@@ -298,7 +318,8 @@ def attack_one(fx, P, ser, phase, label, data, ending, stall, rec, cfgkey):
 
 
 def run_config(P, cfg, rec, r, n_items):
-    fx = fixture.Fixture(servertype=cfg["servertype"], COMMTIMEOUT=cfg["commtimeout"], THREADPOOL_SIZE=cfg["pool"], THREADPOOL_SIZE_MIN=2, ITER_STREAMING=True)
+    fx = fixture.Fixture(servertype=cfg["servertype"], COMMTIMEOUT=cfg["commtimeout"], THREADPOOL_SIZE=cfg["pool"], THREADPOOL_SIZE_MIN=2, ITER_STREAMING=True,
+                         ITER_STREAM_LINGER=0.2, ITER_STREAM_LIFETIME=1.0)      # abandoned streams expire (housekeeping) while the attack is still going on
     cfgkey = "%s/%s/%s" % (cfg["servertype"], cfg["commtimeout"], cfg["pool"])
     pay = {"cfg": cfg}
     try:
@@ -384,6 +405,18 @@ def run_config(P, cfg, rec, r, n_items):
                 rec.violation("request-loop-died", "request loop dead after the attack: %r" % (fx.loop_exc,), dict(pay, last=last))
             return
         rec.count("post_attack_handshake_ok")
+        # streams that hostile clients opened and abandoned: the housekeeping pass that drops them has run before the verdict is taken
+        opened = sum(1 for ph, lb in sent_log if "stream_" in lb)
+        if opened:
+            swept = fx.wait_until(lambda: not fx.daemon.streaming_responses, 8.0)
+            rec.count("abandoned_streams_swept" if swept else "abandoned_streams_not_swept_in_time", opened)
+            if not fx.loop_alive():
+                rec.violation("request-loop-died", "request loop died while sweeping abandoned item streams: %r" % (fx.loop_exc,), dict(pay, last=last))
+                return
+            died = [t for k, t in fixture.take_faults() if k == "thread-exception" and "oneway-call" not in t]
+            if died:
+                rec.violation("server-thread-died", "a server thread died while sweeping abandoned item streams: %s" % core.short(died[0], 700), dict(pay, last=last))
+                return
         settled = fx.wait_until(lambda: fx.live_connection_count() == 0, 10.0)
         if not settled:
             rec.violation("workers-stranded-after-attack", "%s slot(s) still occupied 10 s after every client had closed (cfg %s)" % (fx.live_connection_count(), cfgkey), dict(pay, last=last))
